@@ -185,7 +185,7 @@ func (o *Opts) Plugins() any {
 			// a source carrying whatever the string pool carries (references, tokens, odd characters)
 			return core.Pick(r, []string{"ecr#", "docker#v", "org/custom#", ""}) + o.Str(r)
 		}
-		return core.Pick(r, []string{"docker#v5.0.0", "docker-compose#v4", "org/custom#main", "./local", "github.com/o/r-buildkite-plugin#1", "ssh://git@h/o/r.git", "ecr", "a/b"})
+		return core.Pick(r, []string{"docker#v5.0.0", "docker-compose#v4", "org/custom#main", "./local", "github.com/o/r-buildkite-plugin#1", "ssh://git@h/o/r.git", "ecr", "a/b", "x/y#a/../..", "docker#feature/./v1", "org/name#rel//1"})
 	}
 	cfg := func() any {
 		switch r.Intn(5) {
